@@ -545,7 +545,7 @@ func contractHasProperty(c *Contract, prop string) bool {
 		return true
 	}
 	for _, l := range c.Loops {
-		if has(l.Invariants) {
+		if has(l.Invariants) || has(l.Latch) {
 			return true
 		}
 	}
